@@ -403,6 +403,17 @@ func (h *hist) actReport(t *rapid.T) {
 		h.f.trafficSinceRotation = true
 		ev.Label(h.o.prop + ":report-accepted")
 	}
+	// now and then the same content arrives once more under a SECOND valid
+	// signature of the device (another nonce): a different datagram, so the
+	// slot is banned - and has to stay banned when the log is replayed
+	if rapid.IntRange(0, 9).Draw(t, "resignedTwin") == 0 {
+		r := ref.Report{ShortID: id, Timeslot: slot, Power: p}
+		if sig, ok := ref.SignWithNonce(k, r.SigningBytes(), rapid.SliceOfN(rapid.Byte(), 4, 4).Draw(t, "twinNonce")); ok {
+			r.Sig = sig
+			s.datagram(r.Encode(), "report-resigned-twin")
+			ev.Label(h.o.prop + ":report-resigned-twin")
+		}
+	}
 }
 
 func (h *hist) actClock(t *rapid.T) {
@@ -566,7 +577,14 @@ func (h *hist) actStats(t *rapid.T) {
 		}
 		s.compare(s.S.VerifSnapshot(), "future stats query")
 	case "misaligned":
-		q := fmt.Sprint(int64(m.Offset) + rapid.Int64Range(1, 2015).Draw(t, "mis"))
+		// anywhere: inside an archived week, inside either live week, beyond
+		base := int64(m.Offset)
+		if len(m.Archive) > 0 && rapid.Bool().Draw(t, "misInArchive") {
+			base = int64(ref.WeekSlots) * int64(rapid.IntRange(0, len(m.Archive)-1).Draw(t, "misWeek"))
+		} else {
+			base += int64(ref.WeekSlots) * int64(rapid.IntRange(0, 2).Draw(t, "misLive"))
+		}
+		q := fmt.Sprint(base + rapid.Int64Range(1, 2015).Draw(t, "mis"))
 		s.logf("GET stats misaligned %s", q)
 		if _, st, _ := s.getStats(q, extra); st == 200 {
 			s.fail("misaligned week %s served", q)
